@@ -1,6 +1,7 @@
 import M3d.Basic
 import M3d.Model.Conc
 import M3d.Model.ConcQuery
+import M3d.Model.ConcIter
 /-! Line-protocol handler for C13.  Core-only.
 
 * `c13 <scenario> … seq=<answer>` — the property requires the concurrent answer to equal the
@@ -22,6 +23,15 @@ import M3d.Model.ConcQuery
   their own, and append them to the shared result under the mutex: a witness (data race or a
   result different from 30) or `ok schedules=<k>` (`collect_aliased_buffers_racy`,
   `collect_reduce_correct`).
+* `c13 itersearch shared|private` — all complete schedules of two enumerations of a mesh with the
+  faces 1, 2, 3 (reader 0 `Iterate`, reader 1 `IterateSorted` in descending order) over one face
+  list cached in the mesh and sorted in place / over lists of their own: a witness (data race or a
+  reader that is not given every face exactly once in its order) or `ok schedules=<k>`
+  (`iterate_shared_list_racy`, `iterate_private_list_eq_sequential`).
+* `c13 cfgsearch field|private` — the same for `RayVariance` (goroutine 0) and `Render`
+  (goroutine 1) on one renderer with `Antialias = 2`, `RayVariance` zeroing the renderer's own
+  field / a private copy (`renderer_config_field_racy`,
+  `renderer_calls_private_config_eq_sequential`).
 * `c13 updsearch` / `c13 redsearch` — the two-thread witnesses for the unsynchronised
   `updateAt` and the reduction without lock.
 -/
@@ -113,6 +123,31 @@ def handleAll (ws : List String) : Option String :=
           let c := run p Config.init s
           some s!"witness schedule={showSched s} races={c.races.length} result={c.mem CACC} sequential=30"
       | none => some s!"ok schedules={countSchedules p 2 12 Config.init}"
+  | ["itersearch", kind] =>
+      let q : Program :=
+        if kind == "shared" then iterSharedProg (fun t => if t = 1 then some rev3 else none) nth3 snoc10 3
+        else iterLocalProg (fun t => if t = 1 then rev3 else id) nth3 snoc10 3
+      let p : Program := fun t => if t < 2 then q t else []
+      let want : Tid → Val := fun t => if t = 1 then 321 else 123
+      let wrong : Config → Bool := fun c => (List.range 2).any fun t => done p c t && c.mem (ILOG t) != want t
+      let bad : Config → Bool := fun c => !c.races.isEmpty || wrong c
+      match (findSchedule p 2 wrong 24 (structInit 123)).orElse fun _ => findSchedule p 2 bad 24 (structInit 123) with
+      | some s =>
+          let c := run p (structInit 123) s
+          some (s!"witness schedule={showSched s} races={c.races.length} visited=" ++
+            ",".intercalate ((List.range 2).map fun t => toString (c.mem (ILOG t))) ++ " sequential=123,321")
+      | none => some s!"ok schedules={countSchedules p 2 24 (structInit 123)} ownership={progRO iterOwn iterShared p 2}"
+  | ["cfgsearch", kind] =>
+      let kinds : Tid → Val := fun t => if t = 0 then 1 else 0
+      let q : Program := if kind == "field" then rendererFieldProg kinds else renderCallProg kinds
+      let p : Program := fun t => if t < 2 then q t else []
+      let wrong : Config → Bool := fun c => (done p c 1 && (c.thr 1).out != 2) || c.mem CFG != 2
+      let bad : Config → Bool := fun c => !c.races.isEmpty || wrong c
+      match (findSchedule p 2 wrong 10 (structInit 2)).orElse fun _ => findSchedule p 2 bad 10 (structInit 2) with
+      | some s =>
+          let c := run p (structInit 2) s
+          some s!"witness schedule={showSched s} races={c.races.length} render-sampled-with={(c.thr 1).out} sequential=2 field-afterwards={c.mem CFG}"
+      | none => some s!"ok schedules={countSchedules p 2 10 (structInit 2)}"
   | ["updsearch"] =>
       let p : Program := fun t => if t < 2 then updateAtRacy ([5, 3].getD t 0) else []
       match findSchedule p 2 (fun c => !c.races.isEmpty && c.mem CELL != 5) 10 Config.init with
